@@ -217,13 +217,16 @@ def end_type(t, path):
 # sources of constness, write forms
 # ------------------------------------------------------------------------------------------------------------------
 
+# the global update hooks `before_update { .. }` / `after_update { .. }`: the write in one of them, the other absent or harmless
+HOOKS = ("hook-after", "hook-before", "hook-after-both", "hook-before-both")
+
 # source -> scopes in which the write may be placed
 SOURCES = {
-    "global": ("fun", "edge", "tfun", "inst"),
-    "global-inline": ("fun", "edge", "inst"),        # const <type text written out> x[..] = ..   (no typedef name)
-    "typedef-const": ("fun", "edge", "inst"),        # typedef const T ct;  ct x = ..
-    "elem-typedef-const": ("fun", "edge", "inst"),   # typedef const E ce;  ce x[n] = ..           (array of const)
-    "meta-typedef-const": ("fun", "edge"),           # typedef const T ct;  meta ct x = ..         (qualifier over a const typedef)
+    "global": ("fun", "edge", "tfun", "inst") + HOOKS,
+    "global-inline": ("fun", "edge", "inst") + HOOKS,        # const <type text written out> x[..] = ..   (no typedef name)
+    "typedef-const": ("fun", "edge", "inst") + HOOKS,        # typedef const T ct;  ct x = ..
+    "elem-typedef-const": ("fun", "edge", "inst") + HOOKS,   # typedef const E ce;  ce x[n] = ..           (array of const)
+    "meta-typedef-const": ("fun", "edge") + HOOKS,           # typedef const T ct;  meta ct x = ..         (qualifier over a const typedef)
     "instance-cref-param": ("inst",),                # RQ(const T &y) = PR(y..);  parameter of a partial instantiation
     "template-local": ("edge", "tfun"),
     "function-local": ("fun",),
@@ -232,12 +235,18 @@ SOURCES = {
     "function-cref-param": ("fun",),                 # const T &x
     "template-param": ("edge", "tfun"),              # const T x
     "template-cref-param": ("edge", "tfun"),         # const T &x
-    "const-member": ("fun", "edge"),                 # struct { const E k[n]; int v; } x;   target x.k[..]
-    "binder-forall": ("fun", "edge"),
-    "binder-exists": ("fun", "edge"),
-    "binder-sum": ("fun", "edge"),
+    "const-member": ("fun", "edge") + HOOKS,         # struct { const E k[n]; int v; } x;   target x.k[..]
+    "binder-forall": ("fun", "edge") + HOOKS,
+    "binder-exists": ("fun", "edge") + HOOKS,
+    "binder-sum": ("fun", "edge") + HOOKS,
     "binder-iteration": ("fun", "tfun"),
     "binder-select": ("edge",),
+    # the same binders with a name that is already declared, mutable, in an enclosing scope
+    "binder-forall-shadow": ("fun", "edge"),
+    "binder-exists-shadow": ("fun", "edge"),
+    "binder-sum-shadow": ("fun", "edge"),
+    "binder-iteration-shadow": ("fun", "tfun"),
+    "binder-select-shadow": ("edge",),
 }
 BINDERS = [s for s in SOURCES if s.startswith("binder-")]
 
@@ -256,12 +265,17 @@ def build_case(r, source, form, scope, const, t, path, shape, xml):
     binder = source in BINDERS
     if scope not in SOURCES[source]:
         return None
+    shadow = source.endswith("-shadow")
+    if shadow and not const:
+        return None        # (the twin is that of the plain binder)
+    source_full, source = source, source.replace("-shadow", "")
+    hook = scope in HOOKS
     if form == "inst-ref":
         if scope != "inst":
             return None
     elif scope == "inst":
         return None
-    if form == "for-step" and scope == "edge":
+    if form == "for-step" and (scope == "edge" or hook):
         return None
     if binder and (path or not t.is_leaf() or t.kind not in ("bint", "scalar")):
         return None
@@ -337,7 +351,10 @@ def build_case(r, source, form, scope, const, t, path, shape, xml):
         decl = None
         bt = leaf_text(t)
         if not const:   # the twin of a binder is a plain variable of the binder's type
-            decl, where = "%s x;" % bt, (tl if scope in ("edge", "tfun") else fl)
+            decl, where = "%s x;" % bt, (tl if scope in ("edge", "tfun") else g if hook else fl)
+        elif shadow:        # an outer mutable object of the same name and type; the binder hides it
+            outer = [g] + ([tl] if scope in ("edge", "tfun") else []) + ([fl] if scope == "fun" and source == "binder-iteration" else [])
+            r.choice(outer).append("%s x;" % bt)
     else:
         raise AssertionError(source)
     if decl:
@@ -463,6 +480,11 @@ def build_case(r, source, form, scope, const, t, path, shape, xml):
             body_stmt = wrap % body_stmt
     elif scope == "edge":
         upd = stmt
+    elif hook:
+        me, other = ("after_update", "before_update") if "after" in scope else ("before_update", "after_update")
+        g.append("%s { %s }" % (me, stmt))
+        if scope.endswith("-both"):
+            g.append("%s { m0 = 0 }" % other)
     fun_text = None
     if body_stmt is not None:
         fun_text = "void f(%s) { %s %s }" % (", ".join(fparams), " ".join(fl), body_stmt)
@@ -490,7 +512,7 @@ def build_case(r, source, form, scope, const, t, path, shape, xml):
     k.model = (gtext, templates)
     k.text = render_xml(gtext, templates) if xml else render_xta(gtext, templates)
     k.mode = "XML" if xml else "XTA"
-    k.meta = {"source": source, "form": form, "scope": scope, "shape": shape, "const": const, "target": target,
+    k.meta = {"source": source_full, "form": form, "scope": scope, "shape": shape, "const": const, "target": target,
               "leaf": et.kind, "decl": dsx, "site": site}
     return k
 
@@ -877,6 +899,8 @@ def run(ctx):
     for k in cases:
         if k.meta.get("decl"):
             queries.append(decl_query(k.meta))
+            if k.meta["source"].endswith("-shadow"):
+                queries.append("decl " + k.meta["decl"])
     ans = drv_map(queries)
     dis = []
     n_corr = 0
@@ -971,6 +995,11 @@ def run(ctx):
                 ms = RX_S.match(line)
                 if ms and ms.group(2) == "x":
                     real_tys.add(re.sub(r"#scalarset\d+", "#scalarset", ms.group(9)))
+            if k.meta["source"].endswith("-shadow"):     # two objects are called x: the hidden outer one is an ordinary declaration
+                a2 = ans["decl " + k.meta["decl"]]
+                outer = a2.split(" ty=", 1)[1] if " ty=" in a2 else a2
+                cmp("declared type of the hidden outer x (builder callbacks)", k.meta["decl"], outer in real_tys, True)
+                real_tys.discard(outer)
             if real_tys:
                 cmp("declared type of x (builder callbacks)", k.meta["decl"], sorted(real_tys), [mty])
                 n_decl += 1
